@@ -136,12 +136,24 @@ static void declare(no::parser& p, const Decl& d)
                 o.allow_reverse();
         }
     }
+    // Settings are the last word: for declarations with an odd number of items every setting is first given another
+    // value and then the one that is meant (greedy switched on and off again, a limit raised and lowered again, ...)
+    bool detour = d.items.size() % 2 == 1;
+    if (detour)
+    {
+        p.accept_positionals(d.unlimited ? 1 : d.allowed + 2);
+        if (d.allowed == 0 && !d.unlimited)
+            p.accept_positionals(0);
+        p.greedy_postionals(!d.greedy);
+    }
     if (d.unlimited)
         p.accept_positionals();
     else if (d.allowed != 0)
         p.accept_positionals(d.allowed);
     if (d.greedy)
         p.greedy_postionals();
+    else if (detour)
+        p.greedy_postionals(false);
 }
 
 static std::set<std::string> g_env_set;
